@@ -143,13 +143,35 @@ func strFind(L *LState) int {
 
 func strFormat(L *LState) int {
 	str := L.CheckString(1)
-	args := make([]interface{}, L.GetTop()-1)
-	top := L.GetTop()
-	for i := 2; i <= top; i++ {
-		args[i-2] = L.Get(i)
+	// One argument per directive ("%%" is not one): a missing argument is an
+	// error, surplus arguments are ignored, and the numeric directives take
+	// their argument as a number (numeric strings are converted, anything
+	// else is an error), as in Lua.
+	args := make([]interface{}, 0, L.GetTop())
+	narg := 1
+	for i := 0; i < len(str); i++ {
+		if str[i] != '%' {
+			continue
+		}
+		i++
+		if i < len(str) && str[i] == '%' {
+			continue
+		}
+		for i < len(str) && strings.IndexByte("-+ #0123456789.", str[i]) >= 0 {
+			i++
+		}
+		if i >= len(str) {
+			L.RaiseError("invalid option '%%' to 'format'")
+		}
+		narg++
+		switch str[i] {
+		case 'c', 'd', 'i', 'o', 'u', 'x', 'X', 'e', 'E', 'f', 'g', 'G':
+			args = append(args, L.CheckNumber(narg))
+		default:
+			args = append(args, L.CheckAny(narg))
+		}
 	}
-	npat := strings.Count(str, "%") - strings.Count(str, "%%")
-	L.Push(LString(fmt.Sprintf(str, args[:intMin(npat, len(args))]...)))
+	L.Push(LString(fmt.Sprintf(str, args...)))
 	return 1
 }
 
